@@ -142,4 +142,16 @@ CHECKS["C12"] = {
     "assumptions": COMMON_ASSUMPTIONS + ["custom generators registered by the harness build controllers from the public constructors"],
 }
 
+CHECKS["C13"] = {
+    "package": "seq", "bin": "c13", "flavor": "seq", "replay": "rerun",
+    "shards": {"quick": 4, "thorough": 16},
+    "level": "exploration",
+    "technique": "runtime monitoring: call-log oracle over custom slot chains of recording slots (contract of the statement checked on the ordered log), exhaustive for small chain shapes, sampled for larger ones",
+    "rule": "cases = custom SlotChain with p prepare, c check, s statistic recording slots; exhaustive for p,c,s in 0..2 over all order values from {0,1,5,1000} (ties included), all scripts {pass, blocked(type i, 'slot-i'), wait} and all insertion permutations (412k chains); sampled for p,c,s in 0..4 with order values from {0,1,1,5,1000} and a random insertion interleaving; EntryBuilder::with_slot_chain(..).build() then one exit(). Every case is non-trivial; distinct = distinct (shape, ties per kind, position/number of blocking slots, wait present)",
+    "level_text": "On the recorded call log: all prepare slots first, then check slots, then statistic notifications, each group in non-decreasing order value and each slot exactly once; Err iff a check was scripted blocked, carrying (to the caller and to every statistic slot) an error produced by a blocking slot; on_completed exactly once per statistic slot after exit iff the entry passed; small shapes exhaustively (exhaustive_small_shapes in the evidence), larger sampled.",
+    "level_note": "Equal order values may run in any relative order. On a rejected entry there is no handle to call exit() on; build() has already released it.",
+    "design_ref": "DESIGN.md §5 C13",
+    "assumptions": ["runtime monitoring: the verdict covers only the executions this run produced", "no hooks needed (public API only)"],
+}
+
 NOT_APPLICABLE = {}
